@@ -57,6 +57,11 @@ class Grammar(qc.QGrammar):
                 return None
             t = P.tok()
             P.op(ctx, "suspend", a=s, b=t, src=s, thread=ctx)
+            if P.sources[s]["tq"] == 0 and (b >> 2) % 4:
+                # quiesce: a handler invocation that was already committed when dispatch_suspend was called may start arbitrarily later (it is the
+                # "one item already committed"); an empty dispatch_sync on the SERIAL target queue returns only after it has finished
+                oq = P.op(ctx, "sync", a=0, thread=ctx)
+                P.features.add("resettle-quiesced")
             P.op(ctx, "sleep", a=[20, 200, 1200][b % 3])
             o = P.op(ctx, "settimer", a=s, b=STARTS_NS[2 + c % 6], c=INTERVALS_NS[(c >> 3) % 7], d=0, src=s, thread=ctx)
             P.op(ctx, "resume", a=s, b=t, src=s, thread=ctx)
@@ -87,6 +92,24 @@ class Grammar(qc.QGrammar):
 
 
 CLOCK_COHERENCE_NS = 20000
+
+
+def _quiesced(prog, hist, setop, sid, S, set_call_pos):
+    """did the owner run an empty dispatch_sync on the source's SERIAL target queue between its dispatch_suspend and this settimer?
+    Only then is it certain that no handler invocation committed before the suspend can still start afterwards."""
+    if setop is None or S["tq"] != 0 or prog.queues.get(0, {}).get("kind") != 0:
+        return False
+    ev = hist.ev
+    idx = prog.order.index(setop)
+    for o in reversed(prog.order[:idx]):
+        if o.ctx != setop.ctx:
+            continue
+        if o.kind == "suspend" and o.a == sid:
+            return False
+        if o.kind == "sync" and o.a == 0:
+            rets = [i for i in hist.of_kind(K["RET"]) if int(ev["op"][i]) == o.id]
+            return bool(rets) and rets[0] < set_call_pos
+    return False
 
 
 def timer_verdicts(prog, hist):
@@ -123,6 +146,7 @@ def timer_verdicts(prog, hist):
         resu = [i for i in range(hist.n) if (int(kind[i]) == K["CALL"] and prog.ops.get(int(opv[i])) is not None and prog.ops[int(opv[i])].kind == "resume" and prog.ops[int(opv[i])].a == sid)
                 or (int(kind[i]) == K["JCALL"] and int(valv[i]) == 4 and prog_tok_src(prog, int(idxv[i])) == sid)]
         ambiguous_from = None
+        lenient = set()          # epochs whose first invocation may still be the one that was committed before the suspend
         for q in sorted(sets):
             who, earliest, interval = sets[q]
             if interval is None:
@@ -140,17 +164,23 @@ def timer_verdicts(prog, hist):
                 nxt = [x for x in resu if r and x > r[0]]
                 if certain and nxt:
                     epochs.append((q, nxt[0], earliest, interval))
+                    if not _quiesced(prog, hist, o, sid, S, c[0]):
+                        lenient.add(q)
                 else:
                     ambiguous_from = q if ambiguous_from is None else min(ambiguous_from, q)
         epochs.sort()
         for k_, (q, eff, earliest, interval) in enumerate(epochs):
             nxt_q = epochs[k_ + 1][0] if k_ + 1 < len(epochs) else 1 << 60
             total = 0
+            skip_first = q in lenient
             for (s_, e_, inv, d) in iv:
                 if s_ <= eff or s_ >= nxt_q:
                     continue           # before these settings took effect / after they were replaced
                 if ambiguous_from is not None and s_ > ambiguous_from:
                     break
+                if skip_first:
+                    skip_first = False
+                    continue           # possibly the single invocation committed under the old settings before dispatch_suspend took effect
                 now = now_of.get(inv)
                 if now is None:
                     continue
@@ -202,7 +232,7 @@ class Check(sc.SCheck):
             "built); the fires reported so far never exceed the interval boundaries passed; one-shot timers report <= 1; after-blocks run exactly once; the harness blocks "
             "until every armed, uncancelled timer has fired, so a timer that never fires is a stuck witness. Non-trivial: >= 8 timers armed and a re-arm / cancel / "
             "replacement happened among them (part 2) or >= 8 records armed with a removal/update among them (part 1); distinct = distinct program texts / op sequences.")
-    assumptions = ["the timer clock is not stepped during a run; cross-thread clock comparisons carry a 20 us coherence tolerance in multi-CPU runs, none in single-CPU runs", "settings replaced from a foreign thread while the source is not suspended are not judged (an invocation already committed may legally follow the old ones)"]
+    assumptions = ["the timer clock is not stepped during a run; cross-thread clock comparisons carry a 20 us coherence tolerance in multi-CPU runs, none in single-CPU runs", "settings replaced from a foreign thread while the source is not suspended are not judged (an invocation already committed may legally follow the old ones); when they are replaced while suspended, the first invocation afterwards is only judged if the owner quiesced the serial target queue with an empty dispatch_sync after the suspend (the one invocation already committed may otherwise start arbitrarily late)"]
     G = Grammar()
 
     def pre_run(self, rep, tier, seed):
